@@ -25,17 +25,24 @@ DB = ["udt_def = {'name': 'MyUdt', 'attributes': ['x', 'flag', 'y'], 'template':
       f"d = {LD}('10.0.0.1')", "d._tags = tags"]
 
 # ---- request parsing
+# A BOOL array is an array of DWORDs: the request names a first DWORD k and a DWORD count; `bit` is the offset of the first
+# requested BOOL inside the data that comes back.  Stated without fixing k (the library reads from DWORD 0; starting at
+# idx // 32 would be equally right): the DWORDs requested must contain the BOOLs [idx, idx + n).
+_BA_COVER = ["result['plc_tag'][:3] == 'ba[' and result['plc_tag'][-1:] == ']'", "k = int(result['plc_tag'][3:-1])"]
 contract(
     id="request.parse.boolarray.read", func=LD + "._parse_tag_request", call="d._parse_tag_request(tag, 'r')",
     params={"idx": P.numeral(0, 127), "n": P.numeral(2, 128)}, setup=DB + ["tag = 'ba[' + idx + ']{' + n + '}'"],
-    ensures=["result['plc_tag'] == 'ba[0]'", "result['bit'] == int(idx)", "result['bool_elements'] == int(n)",
-             "result['elements'] == spec.logix.bool_array_request(int(idx), int(n))", "result['user_tag'] == 'ba[' + idx + ']'"],
+    ensures=["result['plc_tag'][:3] == 'ba[' and result['plc_tag'][-1:] == ']'",
+             "32 * int(result['plc_tag'][3:-1]) + result['bit'] == int(idx)", "result['bit'] >= 0",
+             "result['bit'] + int(n) <= 32 * result['elements']", "result['bool_elements'] == int(n)",
+             "result['user_tag'] == 'ba[' + idx + ']'"],
     props=["C01"])
 contract(
     id="request.parse.boolarray.single", func=LD + "._parse_tag_request", call="d._parse_tag_request(tag, 'r')",
     params={"idx": P.numeral(0, 127)}, setup=DB + ["tag = 'ba[' + idx + ']'"],
-    ensures=["result['plc_tag'] == 'ba[0]'", "result['bit'] == int(idx)", "result['bool_elements'] is None",
-             "result['elements'] == spec.logix.bool_array_request(int(idx), 1)"],
+    ensures=["result['plc_tag'][:3] == 'ba[' and result['plc_tag'][-1:] == ']'",
+             "32 * int(result['plc_tag'][3:-1]) + result['bit'] == int(idx)", "result['bit'] >= 0",
+             "result['bit'] + 1 <= 32 * result['elements']", "result['bool_elements'] is None"],
     props=["C01"])
 contract(
     id="request.parse.boolarray.write", func=LD + "._parse_tag_request", call="d._parse_tag_request(tag, 'w')",
